@@ -31,12 +31,13 @@ impl Prop for C04Prop {
             large_pct: 25,
             n_small: (0, 10),
             n_large: (21, 60),
-            regimes: vec![WeightRegime::AllNan, WeightRegime::Dyadic, WeightRegime::Dyadic, WeightRegime::SmallInt, WeightRegime::ZeroDyadic, WeightRegime::Nasty, WeightRegime::Tiny, WeightRegime::NearEqual, WeightRegime::MixedScale],
+            regimes: vec![WeightRegime::AllNan, WeightRegime::Dyadic, WeightRegime::Dyadic, WeightRegime::SmallInt, WeightRegime::ZeroDyadic, WeightRegime::FineDyadic, WeightRegime::Nasty, WeightRegime::Tiny, WeightRegime::NearEqual, WeightRegime::MixedScale],
             kinds: AlgoGen::all_kinds(),
             shapes: None,
             lifecycle_pct: 30,
             keyings: 1,
             boundary_per_mille: 0,
+            huge_one_in: 1500,
         }
         .gen("C04", seed, idx)
     }
@@ -70,6 +71,12 @@ impl Prop for C04Prop {
             }
             let all_paths_ok = if positive { smax <= PATH_CAP } else { n <= 8 };
             let sets = positive && orc.exact;
+            let fo = if weighted && positive && !orc.exact && algo::comparable_scale(snap) {
+                cx.count("probe.inexactly_summable_weights");
+                Some(DistOracle::new_float(snap))
+            } else {
+                None
+            };
             let mode = if weighted { "weighted" } else { "hop" };
             macro_rules! viol {
                 ($f:expr, $r:expr) => {
@@ -100,7 +107,7 @@ impl Prop for C04Prop {
                             }
                         };
                         cx.count("single_source_calls");
-                        viol!("single_source", algo::verify_single_source(snap, &orc, s, &got, &SpCheck { first_only, with_paths, sets }, PATH_CAP as usize));
+                        viol!("single_source", algo::verify_single_source(snap, &orc, s, &got, &SpCheck { first_only, with_paths, sets, fo: fo.as_ref() }, PATH_CAP as usize));
                         // explicit enumeration for small graphs
                         if sets && with_paths && !first_only && n <= 9 {
                             for t in 0..n {
@@ -142,7 +149,7 @@ impl Prop for C04Prop {
                                     }
                                 };
                                 cx.count("single_source_with_target_calls");
-                                viol!("single_source", algo::verify_with_target(snap, &orc, s, t, &got, &SpCheck { first_only, with_paths, sets }, PATH_CAP as usize));
+                                viol!("single_source", algo::verify_with_target(snap, &orc, s, t, &got, &SpCheck { first_only, with_paths, sets, fo: fo.as_ref() }, PATH_CAP as usize));
                             }
                         }
                     }
@@ -157,7 +164,7 @@ impl Prop for C04Prop {
                             let m = algo::sp2_conv(m);
                             for s in 0..n {
                                 match m.get(&snap.names[s]) {
-                                    Some(e) => viol!("all_pairs", algo::verify_with_target(snap, &orc, s, t, e, &SpCheck { first_only, with_paths, sets }, PATH_CAP as usize)),
+                                    Some(e) => viol!("all_pairs", algo::verify_with_target(snap, &orc, s, t, e, &SpCheck { first_only, with_paths, sets, fo: fo.as_ref() }, PATH_CAP as usize)),
                                     None => {
                                         cx.fail("C04.all_pairs", "all_pairs(target): source missing", format!("all_pairs(target {:?}) has no entry for source {:?}", tn, snap.names[s]));
                                         return;
@@ -194,7 +201,7 @@ impl Prop for C04Prop {
                             return;
                         }
                         for (i, s) in srcs.iter().enumerate() {
-                            viol!("multi_source", algo::verify_single_source(snap, &orc, *s, &m[&names[i]], &SpCheck { first_only: false, with_paths, sets }, PATH_CAP as usize));
+                            viol!("multi_source", algo::verify_single_source(snap, &orc, *s, &m[&names[i]], &SpCheck { first_only: false, with_paths, sets, fo: fo.as_ref() }, PATH_CAP as usize));
                         }
                         cx.count("multi_source_calls");
                     }
@@ -218,7 +225,7 @@ impl Prop for C04Prop {
                             return;
                         }
                         for s in 0..n {
-                            viol!("all_pairs", algo::verify_single_source(snap, &orc, s, &m[&snap.names[s]], &SpCheck { first_only, with_paths, sets }, PATH_CAP as usize));
+                            viol!("all_pairs", algo::verify_single_source(snap, &orc, s, &m[&snap.names[s]], &SpCheck { first_only, with_paths, sets, fo: fo.as_ref() }, PATH_CAP as usize));
                         }
                         cx.count("all_pairs_calls");
                         if n > 20 && env.pool > 1 {
@@ -249,9 +256,9 @@ impl Prop for C04Prop {
         cx.states.push(super::lifecycle::ops_hash(&case.ops));
     }
     fn rule(&self) -> String {
-        "graphs of all 8 kinds: shapes (G(n,p), paths, cycles, stars, grids, cliques+bridges, layered DAGs with many equal-length paths, unions, trees, bipartite, nested SCCs) with sprinkled self-loops / parallel / reciprocal edges, n <= 10 (75%) or 21-60 (25%), or graphs produced by lifecycle histories; weights hop / dyadic / small int / dyadic with zeros / decimal. single_source from every (or 5 sampled) source x first_only x with_paths, multi_source, all_pairs under a simulated pool of 1-16 workers; oracle: Floyd-Warshall distances, reachable set, path validity, path count = sigma(s,t) and (n <= 9) path set = explicit enumeration. distinct_nontrivial = distinct graphs with a pair having several shortest paths, an unreachable pair, or parallel edges".into()
+        "graphs of all 8 kinds: shapes (G(n,p), paths, cycles, stars, grids, cliques+bridges, layered DAGs with many equal-length paths, unions, trees, bipartite, nested SCCs) with sprinkled self-loops / parallel / reciprocal edges, n <= 10 (75%) or 21-60 (25%), or graphs produced by lifecycle histories; weights hop / dyadic / small int / dyadic with zeros / decimal. single_source from every (or 5 sampled) source x first_only x with_paths, multi_source, all_pairs under a simulated pool of 1-16 workers; oracle: Floyd-Warshall distances, reachable set, path validity, path count = sigma(s,t) and (n <= 9) path set = explicit enumeration. distinct_nontrivial = distinct graphs with a pair having several shortest paths, an unreachable pair, or parallel edges; one case in 1500 is a dense graph (1-3 blocks, 60-300 nodes) with 2 100 - 12 500 stored edges under a pool of 2-16 workers (strategy thresholds); weights also 1 + k 2^-j (j = 35..41: exactly summable, differing in the 11th-13th digit); under inexactly summable positive weights the number of paths per pair must equal the number of shortest paths under the accumulated-float reading or under the 1e-9 reading".into()
     }
     fn assumptions(&self) -> Vec<String> {
-        vec!["path sets are compared only under exactly summable (dyadic) strictly positive weights or hop counts; otherwise distances at 1e-9 and path validity".into(), "all-paths queries are skipped when some pair has more than 3000 shortest paths".into()]
+        vec!["path sets are compared exactly under exactly summable strictly positive weights or hop counts; under inexactly summable positive weights: distances at 1e-9 relative, path validity, and the path count per pair must fit the accumulated-float reading or the 1e-9 reading".into(), "all-paths queries are skipped when some pair has more than 3000 shortest paths".into()]
     }
 }
